@@ -54,7 +54,7 @@ type env struct {
 
 var families = []string{"io", "tee", "sampler", "hooked", "increase", "lazy", "observer", "buffered"}
 
-func build(family string, warm bool) *env {
+func build(family string, warm int) *env {
 	e := &env{family: family, clock: hx.NewFixedClock()}
 	e.AL = zap.NewAtomicLevelAt(zap.DebugLevel)
 	enc := func() zapcore.Encoder { return zapcore.NewJSONEncoder(zap.NewProductionEncoderConfig()) }
@@ -99,7 +99,10 @@ func build(family string, warm bool) *env {
 	e.H3 = e.H.WithGroup("a").WithGroup("b").WithGroup("c")
 	e.LWS = zapcore.Lock(newSink())
 	e.G = e.L.Named("g")
-	if warm {
+	if warm >= 2 {
+		rarePaths(e)
+	}
+	if warm >= 1 {
 		e.L.Info("warm")
 		e.S.Infow("warm", "k", 1)
 		e.Z.Info("warm")
@@ -108,6 +111,38 @@ func build(family string, warm bool) *env {
 	}
 	return e
 }
+
+// rarePaths is a history that takes the seldom-used exits of the logging path once, sequentially,
+// before the threads start: whatever those exits leave in the pools is what the concurrent calls get.
+func rarePaths(e *env) {
+	quiet := zap.ErrorOutput(zapcore.AddSync(discard{}))
+	e.L.WithOptions(zap.AddCaller(), zap.AddCallerSkip(1000), quiet).Info("caller-not-found")
+	e.L.WithOptions(zap.AddCaller(), zap.AddCallerSkip(1000), zap.AddStacktrace(zap.DebugLevel), quiet).Warn("caller-and-stack-not-found")
+	e.L.Info("unencodable", zap.Reflect("ch", make(chan int)), zap.Object("o", failObj{}), zap.Stringer("s", panicStr{}), zap.Error(panicErr{}))
+	rec(func() { e.L.WithOptions(quiet).Panic("recovered") })
+	_ = e.L.Check(zap.InfoLevel, "checked-never-written")
+	e.L.Info("stack-field", zap.StackSkip("deep", 1000), zap.Stack("st"))
+	_ = e.H.Handle(context.Background(), slog.NewRecord(e.clock.T, slog.LevelError, "slog-error-with-stack", 0))
+}
+
+type discard struct{}
+
+func (discard) Write(p []byte) (int, error) { return len(p), nil }
+
+type failObj struct{}
+
+func (failObj) MarshalLogObject(enc zapcore.ObjectEncoder) error {
+	enc.OpenNamespace("ns")
+	return errors.New("marshal failed")
+}
+
+type panicStr struct{}
+
+func (panicStr) String() string { panic("stringer") }
+
+type panicErr struct{}
+
+func (panicErr) Error() string { panic("error") }
 
 type vsyncCounter struct {
 	mu vsync.Mutex
@@ -199,7 +234,8 @@ func opsFor(family string) []string {
 // item: c09|family|warm|preempt|prog1;prog2[;prog3]  (prog = comma separated ops)
 func handler(item string, replay []int, isReplay bool, journal func([]int)) mc.ItemResult {
 	f := strings.Split(item, "|")
-	family, warm := f[1], f[2] == "1"
+	family := f[1]
+	warm, _ := strconv.Atoi(f[2])
 	pre, _ := strconv.Atoi(f[3])
 	var progs [][]string
 	for _, p := range strings.Split(f[4], ";") {
@@ -265,7 +301,10 @@ func main() {
 	}
 	for _, fam := range families {
 		all := opsFor(fam)
-		for warm := 0; warm <= 1; warm++ {
+		for warm := 0; warm <= 2; warm++ {
+			if warm == 2 && fam != "io" && fam != "tee" {
+				continue // the rare-exit history (warm=2) on the two families that reach every pool
+			}
 			// all unordered pairs of single ops
 			pre := 1
 			if thorough {
@@ -345,7 +384,7 @@ func main() {
 		"traces_validated_against_impl": sum.Execs,
 		"evaluations":                   sum.Execs,
 		"distinct_nontrivial":           len(sum.PerItem),
-		"rule":                          "one evaluation = one complete schedule of one generated program (core family x warm-up x thread programs over the op alphabet) on the real code under -race; distinct = distinct programs",
+		"rule":                          "one evaluation = one complete schedule of one generated program (core family x history {none, warm-up, warm-up after the rare exits of the logging path: caller not found, unencodable / failing / panicking fields, recovered Panic, Check without Write, over-deep StackSkip} x thread programs over the op alphabet) on the real code under -race; distinct = distinct programs",
 		"samples":                       samples,
 		"exhaustive":                    sum.Exhaustive,
 		"programs":                      len(items),
